@@ -537,6 +537,18 @@ fire("C15", "removed-row-kept", "R15.4", E(PP, "remove_node", "            adj.r
 silent("C15", "transpose-method", E(TREE, "sequence_tree_skip_grams", '        global_counts = global_counts.T\n', '        global_counts = global_counts.transpose()\n'), "transpose spelled as a method")
 silent("C15", "symmetric-assignment", E(TREE, "sequence_tree_skip_grams", "        global_counts += global_counts.T\n", "        global_counts = global_counts.T + global_counts\n"), "sum written as an assignment, operands commuted")
 
+# --- round 4 seeds
+_FKA_OLD = '        for i, args in enumerate(self._kernel_args):\n            default_kernel_array_args = {\n                "mask_index": self._mask_index,\n                "normalize": False,\n                "offset": 0,\n            }\n            default_kernel_array_args.update(args)\n'
+fire("C03", "kernel-defaults-shared-across-windows", "R3.11", E(BASE, "BaseCooccurrenceVectorizer._set_full_kernel_args", _FKA_OLD,
+     '        default_kernel_array_args = {\n            "mask_index": self._mask_index,\n            "normalize": False,\n            "offset": 0,\n        }\n        for i, args in enumerate(self._kernel_args):\n            default_kernel_array_args.update(args)\n'),
+     "seeded r4_C03: the defaults dict hoisted out of the window loop; one window's kernel arguments leak into the next")
+silent("C03", "kernel-defaults-hoisted-and-copied", E(BASE, "BaseCooccurrenceVectorizer._set_full_kernel_args", _FKA_OLD,
+     '        defaults = {\n            "mask_index": self._mask_index,\n            "normalize": False,\n            "offset": 0,\n        }\n        for i, args in enumerate(self._kernel_args):\n            default_kernel_array_args = dict(defaults)\n            default_kernel_array_args.update(args)\n'),
+     "defaults hoisted, a fresh copy per window: behaviour-preserving")
+fire("C13", "transform-reads-conditionally-what-it-rewrites", "R13.2", E(TREE, "LabelledTreeCooccurrenceVectorizer.transform",
+     "        raw_token_sequences = [label_sequence for adjacency, label_sequence in X]\n",
+     "        if self.nullify_mask:\n            self._mask_index = np.int32(len(self._token_frequencies_))\n        raw_token_sequences = [label_sequence for adjacency, label_sequence in X]\n"),
+     "seeded r4_C13: the mask index recomputed in transform from frequencies that the previous transform overwrote; the read sits under a condition")
 # --- C20: bookkeeping clauses of the histogram / KDE vectorizers
 KDEF = "vectorizers/kde_vectorizer.py"
 fire("C20", "left-outlier-overlaps", "R20.1", E(VEC, "add_outier_bins", "left_outlier = pd.Interval(left=absolute_range[0], right=interval_list[0].left)", "left_outlier = pd.Interval(left=absolute_range[0], right=interval_list[0].right)"),
